@@ -6,6 +6,8 @@ pub mod c02;
 pub mod c03;
 pub mod c04;
 pub mod c05;
+pub mod c06;
+pub mod c07;
 pub mod common;
 
 pub struct Prop {
@@ -25,6 +27,8 @@ pub static PROPS: &[Prop] = &[
     Prop { id: "C03", run: c03::run, meta: c03::meta, single_process: false, budget_quick_s: 120, budget_thorough_s: 900, handles_foreign_panics: false },
     Prop { id: "C04", run: c04::run, meta: c04::meta, single_process: false, budget_quick_s: 120, budget_thorough_s: 900, handles_foreign_panics: false },
     Prop { id: "C05", run: c05::run, meta: c05::meta, single_process: false, budget_quick_s: 120, budget_thorough_s: 900, handles_foreign_panics: false },
+    Prop { id: "C06", run: c06::run, meta: c06::meta, single_process: false, budget_quick_s: 120, budget_thorough_s: 900, handles_foreign_panics: false },
+    Prop { id: "C07", run: c07::run, meta: c07::meta, single_process: false, budget_quick_s: 120, budget_thorough_s: 900, handles_foreign_panics: false },
 ];
 
 pub fn find(id: &str) -> Option<&'static Prop> {
